@@ -644,6 +644,26 @@ class MProcess(QOperation):
         new_hss = [hs / other for hs in self.hss]
         return new_hss
 
+    def __add__(self, other):
+        new_qobject = super().__add__(other)
+        new_qobject._shape = self.shape
+        return new_qobject
+
+    def __sub__(self, other):
+        new_qobject = super().__sub__(other)
+        new_qobject._shape = self.shape
+        return new_qobject
+
+    def __mul__(self, other):
+        new_qobject = super().__mul__(other)
+        new_qobject._shape = self.shape
+        return new_qobject
+
+    def __truediv__(self, other):
+        new_qobject = super().__truediv__(other)
+        new_qobject._shape = self.shape
+        return new_qobject
+
     def get_basis(self) -> SparseMatrixBasis:
         """returns MatrixBasis of gate.
         Returns
